@@ -249,7 +249,13 @@ def allowed(o, op):
     if op["k"] == "discard":
         return k == "discard" and op["c"] in o[w]
     if op["k"] == "knock":
-        return k == "knock"
+        if k != "knock":
+            return False
+        # Spec/GinRules.lean `Allowed`: a knock that names melds is entertained only if each named meld is at least of one
+        # rank or of one suit (what the scoring code can read as a set or a run)
+        if op.get("knocks") and op.get("melds") is not None:
+            return all(len({c[0] for c in m}) == 1 or len({c[1] for c in m}) == 1 for m in op["melds"])
+        return True
     return False
 
 
@@ -514,7 +520,7 @@ class C08(Prop):
     def generate(self, rng, tier, shard):
         while True:
             h = self.gen_hand(rng)
-            c = {"hand": h, "max_dw": rng.choice([None, 10, 10, 0, 25]), "stop": rng.random() < 0.5}
+            c = {"hand": h, "max_dw": rng.choice([None, 10, 10, 0, 25]), "stop": rng.random() < 0.5, "pos": rng.random() < 0.5}
             if rng.random() < 0.25:
                 c["pre"] = rng.randrange(1, 1 << 16)
             yield c
@@ -537,7 +543,10 @@ class C08(Prop):
         except Exception as e:
             out["split"] = "!" + type(e).__name__
         try:
-            cs = self.ru.get_candidate_melds(list(case["hand"]), max_deadwood=case["max_dw"], stop_on_gin=case["stop"])
+            if case.get("pos"):   # the documented parameter order, passed positionally
+                cs = self.ru.get_candidate_melds(list(case["hand"]), case["max_dw"], case["stop"])
+            else:
+                cs = self.ru.get_candidate_melds(list(case["hand"]), max_deadwood=case["max_dw"], stop_on_gin=case["stop"])
             out["cands"] = [{"dw": d, "melds": [list(m) for m in melds], "um": list(um)} for d, melds, um in cs]
         except Exception as e:
             out["cands"] = "!" + type(e).__name__
@@ -652,7 +661,7 @@ class C12(Prop):
             if len(rest) < 10:
                 rest = [c for c in gin.CARDS if c not in kh]
             dh = rng.sample(rest, 10)
-            c = {"hand": dh, "opp": opp, "stop": rng.random() < 0.5}
+            c = {"hand": dh, "opp": opp, "stop": rng.random() < 0.5, "pos": rng.random() < 0.5}
             if rng.random() < 0.3:
                 c["pre"] = rng.randrange(1, 1 << 16)
             yield c
@@ -661,7 +670,10 @@ class C12(Prop):
         if case.get("pre"):
             gin.helper_prelude(case["hand"], case["pre"])
         try:
-            d, melds, lo, um = self.ru.layoff_deadwood(list(case["hand"]), [list(m) for m in case["opp"]], stop_on_zero=case["stop"])
+            if case.get("pos"):
+                d, melds, lo, um = self.ru.layoff_deadwood(list(case["hand"]), [list(m) for m in case["opp"]], case["stop"])
+            else:
+                d, melds, lo, um = self.ru.layoff_deadwood(list(case["hand"]), [list(m) for m in case["opp"]], stop_on_zero=case["stop"])
             return {"dw": d, "melds": [list(m) for m in melds], "lo": list(lo), "um": list(um)}
         except Exception as e:
             return {"exc": type(e).__name__ + ": " + str(e)[:80]}
